@@ -44,9 +44,9 @@ CHECKS = {
                    "numerals x 42 suffixes; humansize: every representable value v (v-1,v,v+1,midpoint), 2^64-1, all sizes 0..200000"
                    % (_INT_ALPHA, _FLT_ALPHA, _HS_ALPHA)),
             thorough=("as quick with integer strings of length <=6, float strings of length <=6, humansize_parse strings of length <=7, "
-                      "humansize sizes 0..3000000. The thorough tier (--deep) goes beyond that: integer alphabet %s plus X and F "
-                      "(15 symbols: upper-case hex prefix and digit) of length <=6; float strings of length <=7 (first length with a complete "
-                      "hex float such as 0x1.8p1); humansize_parse strings of length <=8; humansize sizes 0..30000000; boundary numerals unchanged"
+                      "humansize sizes 0..3000000. The thorough tier (--deep) goes beyond that: integer alphabet %s plus X, F and Z "
+                      "(16 symbols: upper-case hex prefix, hex digit and largest base-36 digit) of length <=6; float alphabet plus E (15 symbols), "
+                      "strings of length <=7 (first length with a complete hex float such as 0x1.8p1); humansize_parse strings of length <=8; humansize sizes 0..30000000; boundary numerals unchanged"
                       % _INT_ALPHA),
         ),
         assumptions=[
@@ -61,8 +61,8 @@ CHECKS = {
 CLAIMS = {
     "C16": dict(
         text=("Bounded exhaustive input enumeration: every string over a 13-character integer alphabet (white space, signs, digits of "
-              "several bases, prefix letter, junk; 15 characters with upper-case X and F in the thorough tier) up to length 6, every string "
-              "over a 14-character float alphabet up to length 6 (quick tier) / 7 (thorough tier) "
+              "several bases, prefix letter, junk; 16 characters with upper-case X, F and Z in the thorough tier) up to length 6, every string "
+              "over a 14-character float alphabet up to length 6 (quick tier) / over 15 characters (with upper-case E) up to length 7 (thorough tier) "
               "and every string over a 12-character size alphabet up to length 7 / 8 is parsed by the real macros/functions for every "
               "integer width and signedness, float and double, 7-9 bounds forms (type limits, inside, negative, empty, beyond the type), "
               "6 bases and both trailing flags, plus generated numerals at every type limit and bound +-1 in all bases 2..36, and compared "
